@@ -15,6 +15,12 @@
 //                     from an empty plz-out.  If filegroups do not take the lock the later invocation hashes the
 //                     partial output directory, finds it different and removes it under the earlier one.
 //
+//                     Variant shared-file: 4 DIFFERENT filegroups (binary = True) re-export ONE large source file - one
+//                     output path, four target locks; 3-4 invocations build one each.  The first is started at niceness
+//                     10; when its temporary file appears next to the destination it is held (SIGSTOP) and the others
+//                     are started; it is released when they have finished.  What keeps them apart is not a lock but
+//                     fs.WriteFile's private temporary name (Model/C31_TempFile.v; case CaseShared).
+//
 // Oracle (model independent): every invocation exits 0, the final outputs equal the expected ones (= what a
 // solo build produces: computed from the sources), and the command of the target ran exactly ONCE (a waiter
 // that was kept out until the record existed reuses the outputs - Proof/C31.v at_most_once).  Interference is
@@ -35,6 +41,8 @@ import (
 	"sort"
 	"strings"
 	"sync"
+	"sync/atomic"
+	"syscall"
 	"time"
 
 	"verifharness/e2e"
@@ -47,6 +55,7 @@ type critRace struct {
 	Trial       int      `json:"trial"`
 	Files       int      `json:"files,omitempty"`
 	Targets     int      `json:"distinct_targets_with_one_output,omitempty"`
+	FirstHeld   bool     `json:"first_invocation_held_while_the_others_ran,omitempty"`
 	Invocations int      `json:"invocations"`
 	Build       string   `json:"build_file"`
 	Label       string   `json:"label"`
@@ -372,6 +381,32 @@ func (f *fgRepo) trial(c *lib.Ctx, trial, nInv int, delays []time.Duration, at [
 	var wg sync.WaitGroup
 	t0 := time.Now()
 	firstDone := make(chan struct{})
+	// shared-file: the first invocation is HELD (SIGSTOP) from the moment its temporary file is seen until the others
+	// have finished - a scheduling delay like any other, which puts the others' whole copy inside the first one's
+	var firstPgid atomic.Int64
+	var holdOnce, releaseOnce sync.Once
+	var others sync.WaitGroup
+	hold := func() {
+		holdOnce.Do(func() {
+			if pg := firstPgid.Load(); pg > 0 && f.variant == "shared-file" {
+				if syscall.Kill(-int(pg), syscall.SIGSTOP) == nil {
+					cr.FirstHeld = true
+				}
+			}
+		})
+	}
+	release := func() {
+		releaseOnce.Do(func() {
+			if pg := firstPgid.Load(); pg > 0 {
+				syscall.Kill(-int(pg), syscall.SIGCONT)
+			}
+		})
+	}
+	defer release()
+	if at != nil && f.variant == "shared-file" {
+		others.Add(nInv - 1)
+		go func() { others.Wait(); release() }()
+	}
 	for k := 0; k < nInv; k++ {
 		wg.Add(1)
 		go func(k int) {
@@ -388,6 +423,12 @@ func (f *fgRepo) trial(c *lib.Ctx, trial, nInv int, delays []time.Duration, at [
 			} else if k > 0 {
 				time.Sleep(delays[k])
 			}
+			if k > 0 && at != nil && f.variant == "shared-file" {
+				defer others.Done()
+				if f.progress() >= at[k] {
+					hold()
+				}
+			}
 			started[k] = time.Since(t0).Milliseconds()
 			niceness := 0
 			if k == 0 && at != nil {
@@ -398,7 +439,11 @@ func (f *fgRepo) trial(c *lib.Ctx, trial, nInv int, delays []time.Duration, at [
 					niceness = 10
 				}
 			}
-			res[k] = runPlzNice(f.repo, niceness, 2, false, []string{f.labelOf(k)}, 120*time.Second)
+			var started func(int)
+			if k == 0 {
+				started = func(pgid int) { firstPgid.Store(int64(pgid)) }
+			}
+			res[k] = runPlzCtl(f.repo, niceness, 2, false, []string{f.labelOf(k)}, 120*time.Second, started)
 			if k == 0 {
 				close(firstDone)
 			}
@@ -497,8 +542,8 @@ func runFilegroupStreams(c *lib.Ctx, base string) []*critRace {
 		for t := 0; t < x.trials; t++ {
 			if x.variant == "shared-file" {
 				// DIFFERENT filegroups with the same output file, one invocation each: the later ones are started together when
-				// the first (at niceness 19) has opened its temporary file - on a busy machine their copies overlap the first
-				// one's, on an idle one each other's (they take as long as each other); every fourth trial: all at once
+				// the first (at niceness 10) has opened its temporary file; the first is held from then until they have
+				// finished (trial()); every fourth trial: all at once, nobody held
 				n := 3 + (t+1)%2
 				if t%4 == 3 {
 					out = append(out, f.trial(c, t, n, make([]time.Duration, n), nil))
